@@ -61,9 +61,16 @@ def verify_function(task):
                           ex.ax + rst.pc, z3.BoolVal(True), qual, rec.line)
                 cov.sat_expected = True
                 res.covers.append(cov)
+                def raise_cond(text):
+                    # conditions over the parameters are read in the entry state; if a condition mentions a local (ghost
+                    # witness such as the number of intervals) it is read in the exit state of the path
+                    try:
+                        return ex.spec(text, entry_view)
+                    except Undecided:
+                        return ex.spec(text, rst)
                 if rec.exc is not None:
                     if rec.exc in c.raises:
-                        g = ex.spec(c.raises[rec.exc], entry_view)
+                        g = raise_cond(c.raises[rec.exc])
                         res.obls.append(Obl(f"{qual}:raises[{rec.exc}@{rec.line}#{i}]", "raises", ex.ax + rst.pc, g, qual, rec.line,
                                             c.raises[rec.exc]))
                     else:
@@ -78,7 +85,7 @@ def verify_function(task):
                         raise Undecided(f"postcondition #{j} cannot be evaluated on exit at line {rec.line}: {u}")
                     res.obls.append(Obl(f"{qual}:post[{j}@{rec.line}#{i}]", "post", ex.ax + rst.pc, g, qual, rec.line, p))
                 for exc, cond in c.raises.items():
-                    g = ex.spec(cond, entry_view)
+                    g = raise_cond(cond)
                     res.obls.append(Obl(f"{qual}:no-raise[{exc}@{rec.line}#{i}]", "raises", ex.ax + rst.pc, z3.Not(g), qual, rec.line,
                                         f"normal return implies not ({cond})"))
                 # frame: every write recorded on this path must target storage named in `modifies`
